@@ -367,7 +367,46 @@ def main(argv):
     # ---- generate commands
     cmds = []
     meta = []
-    for ent in plan["scenarios"]:
+    pool = Pool()
+    enum_info = []
+    if "enum_alloc" in plan:
+        # fault enumeration: run each program once to count allocations, then
+        # once per k with allocation k failing (same seed => identical run up to k)
+        progs = plan["enum_alloc"]
+        base_cmds, base_meta = [], []
+        nseeds = plan.get("enum_seeds", {}).get(tier, 1)
+        for pi, prog in enumerate(progs):
+            for si in range(nseeds):
+                s = mix(seed, prop, "enum", pi, si)
+                base_cmds.append(cmdline(prog["scenario"], s, prog.get("params", {}), wall=60))
+                base_meta.append((pi, prog, s))
+        base_res = pool.map(base_cmds)
+        import random as _r
+        rnd = _r.Random(seed)
+        for (pi, prog, s), r in zip(base_meta, base_res):
+            k_, cls_, _, det_ = classify(r)
+            if k_ != "ok":
+                print(f"INFRA: baseline of {prog['scenario']} {prog.get('params')} seed {s} is not ok: {k_} {cls_} {det_[:200]}")
+                pool.close()
+                return 2
+            n = r.get("allocs", 0)
+            init = r.get("stats", {}).get("init_allocs", 0)
+            ks = list(range(init + 1, n + 1))
+            full = True
+            if tier == "quick":
+                first = plan.get("quick_first", 120)
+                rest = ks[first:]
+                ks = ks[:first] + sorted(rnd.sample(rest, min(len(rest), plan.get("quick_sample", 30))))
+                full = len(rest) <= plan.get("quick_sample", 30)
+            enum_info.append({"program": prog["scenario"], "params": prog.get("params", {}), "seed": s, "allocations": n,
+                              "init_allocations": init, "k_run": len(ks), "all_k": full})
+            for k in ks:
+                params = dict(prog.get("params", {}))
+                params["fail_alloc_k"] = k
+                ent = {"scenario": prog["scenario"], "label": "k", "params": params, "wall": 60, "enum": True}
+                cmds.append(cmdline(prog["scenario"], s, params, wall=60))
+                meta.append((ent, s, params))
+    for ent in plan.get("scenarios", []):
         n = ent["runs"][tier]
         for j in range(n):
             s = mix(seed, prop, ent["scenario"], ent.get("label", ""), j)
@@ -380,7 +419,6 @@ def main(argv):
     order = sorted(range(len(cmds)), key=lambda i: (mix("o", i) % 1000003))
     cmds = [cmds[i] for i in order]
     meta = [meta[i] for i in order]
-    pool = Pool()
     results = pool.map(cmds, deadline)
     # ---- aggregate
     known = load_known()
@@ -412,8 +450,14 @@ def main(argv):
             for name, dst in (("probes", probes), ("faults_inflight", fin), ("faults_idle", fidle), ("stats", stats)):
                 for kk, vv in r.get(name, {}).items():
                     dst[kk] = dst.get(kk, 0) + vv
-            if k in ("ok", "violation") and r.get("stats", {}).get("nontrivial", 0) > 0 and r.get("switches", 0) > 0:
+            if ent.get("enum"):
+                if r.get("alloc_fault_hit"):
+                    nontriv.add(r["trace_hash"])
+            elif k in ("ok", "violation") and r.get("stats", {}).get("nontrivial", 0) > 0 and r.get("switches", 0) > 0:
                 nontriv.add(r["trace_hash"])
+            if ent.get("enum") and len(samples) < 6 and r.get("alloc_fault_hit"):
+                samples.append({"program": ent["scenario"], "params": params, "seed": s, "outcome": r.get("status"),
+                                "probes": r.get("probes", {})})
             if len(samples) < 4 and r.get("events"):
                 samples.append({"scenario": ent["scenario"], "seed": s, "config": r.get("samples", [])[:1],
                                 "events": r["events"][:40], "outcome": r.get("status")})
@@ -442,7 +486,7 @@ def main(argv):
         work, fault = r.get("work"), r.get("fault")
         nshr = 0
         final = r
-        if work is not None:
+        if work is not None and not ent.get("enum"):
             (work, fault), nshr = shrink(pool, ent["scenario"], s, p2, work, fault or [], cls, wall=ent.get("wall", 60))
             final = pool.map([cmdline(ent["scenario"], s, p2, work, fault, ent.get("wall", 60)) + " trace_level=3"])[0]
             kf_, clsf, _, _ = classify(final)
@@ -515,8 +559,12 @@ def main(argv):
         "known_findings_seen": [{"what": kf.get("what"), "count": n} for kf, n in known_hits],
         "build_s": round(build_s, 2),
     }
-    if plan.get("level") == "fault_enumeration":
-        ev["coverage"].update(plan.get("extra_coverage", {}))
+    if enum_info:
+        ev["coverage"]["enumeration"] = enum_info
+        ev["coverage"]["exhaustive"] = all(e["all_k"] for e in enum_info) and agg["skipped"] == 0
+        ev["coverage"]["exhaustive_scope"] = "every allocation index k of every listed program under the listed seed(s) (one schedule each); not exhaustive over schedules"
+        ev["coverage"]["technique"] = "deterministic simulation with fault enumeration: allocation k fails, for every k of each deterministic run"
+
     os.makedirs(os.path.join(VERIF, "evidence"), exist_ok=True)
     json.dump(ev, open(os.path.join(VERIF, "evidence", prop + ".json"), "w"), indent=1)
     print(f"{prop} {tier}: runs={evaluations} ok={agg['ok']} inconclusive={agg['inconclusive']} violations={agg['violation']} "
